@@ -156,7 +156,7 @@ def targeted(oc):
 def run_c13(tier, seed):
     oc = Outcome('C13')
     targeted(oc)
-    n_hist = 80 if tier == 'quick' else 800
+    n_hist = 80 if tier == 'quick' else 6000
     for k in range(n_hist):
         monitor_history(oc, seed * 9973 + 37 * k, tier)
     oc.extra['monitor'] = ('after every step: id()-sets of the running order, of a second running order fed the same message '
